@@ -76,7 +76,7 @@ func runE2E(c E2ECase) (ev.Info, error) {
 		d.Validating = []hcfg.Adm{{Name: "limited.example.com", Rules: []hcfg.AdmRule{{Operations: []string{"CREATE"}, APIGroups: []string{""}, APIVersions: []string{"v1"}, Resources: []string{"pods"}}}}}
 	}
 	if c.HasSettings {
-		d.Settings = &hcfg.Settings{Interval: fmt.Sprintf("%dms", c.IntervalMs), Burst: c.Burst}
+		d.Settings = &hcfg.Settings{Interval: fmt.Sprintf("%dms", c.IntervalMs), Burst: hcfg.I(c.Burst)}
 	}
 	var rules []vh.Rule
 	if c.FailTimes > 0 {
